@@ -117,7 +117,8 @@ func NewServer(opt Options) *Server {
 		inst += n * 8
 	}
 	// 127.<20+prop>.<inst>.1 ; the per-process offset keeps concurrently running checks apart
-	ip := fmt.Sprintf("127.%d.%d.1", 20+opt.Prop, inst%250+1)
+	// (instances beyond 250 - several driver runs of one property at once, VERIF_INSTANCE_OFFSET - move to another second octet)
+	ip := fmt.Sprintf("127.%d.%d.1", 20+opt.Prop+25*((inst/250)%9), inst%250+1)
 	dir := filepath.Join(runBase(), fmt.Sprintf("srv%d", inst))
 	_ = os.RemoveAll(dir)
 	if err := os.MkdirAll(dir, 0o755); err != nil {
